@@ -73,10 +73,12 @@ class ModbusAsciiFramer(ModbusFramer):
         if end != -1:
             self._header['len'] = end
             try:
-                self._header['uid'] = int(self._buffer[1:3], 16)
-                self._header['lrc'] = int(self._buffer[end - 2:end], 16)
+                # a2b_hex accepts hexadecimal digits only (int(.., 16) also
+                # takes white space, signs, underscores and a 0x prefix)
+                self._header['uid'] = ord(a2b_hex(self._buffer[1:3]))
+                self._header['lrc'] = ord(a2b_hex(self._buffer[end - 2:end]))
                 data = a2b_hex(self._buffer[start + 1:end - 2])
-            except ValueError:
+            except (ValueError, TypeError):
                 # not hexadecimal: this cannot be a valid frame
                 return False
             return checkLRC(data, self._header['lrc'])
